@@ -196,7 +196,16 @@ func (m *MW) StepCause(ci int) {
 			inv := W.LN.NewExternalInvoice((lim.MeltingSettings.MaxAmount + 1) * 1000)
 			_, r = a.ReqMeltQuote(mint, inv.Bolt11, 0)
 		case "unit":
-			r = a.Post(mint, "/v1/mint/quote/bolt11", map[string]any{"amount": 5, "unit": "usd"})
+			// another unit, also spelled with characters that need escaping when the mint echoes them in
+			// its error detail (control characters, DEL, non-ASCII, an astral-plane tag character)
+			units := []string{"usd", "sat\u0007", "s\u007ft", "s\u00e4t", "sat\U000e0001", "\x1bsat", "sa\"t", "sat\v"}
+			u := units[m.T.Choose("cause.unit", len(units))]
+			if m.T.Chance("cause.unit.melt", 1, 3) {
+				inv := m.W.LN.NewExternalInvoice(7000)
+				r = a.Post(mint, "/v1/melt/quote/bolt11", map[string]any{"request": inv.Bolt11, "unit": u})
+			} else {
+				r = a.Post(mint, "/v1/mint/quote/bolt11", map[string]any{"amount": 5, "unit": u})
+			}
 		case "melt_pending", "melt_paid":
 			inv := W.LN.NewExternalInvoice(3000)
 			sc := &LNScript{Pay: "pending"}
